@@ -621,6 +621,68 @@ func runPolicy(seed int64, idx int) *scen.Outcome {
 			break
 		}
 	}
+	mainCalls := len(seq)
+	if deadExtra && policy != rpc.LeastTimeScheduling && len(out.Findings) == 0 {
+		// Epilogue: the live set changes its members but not its size within
+		// one detection round - a live target starts refusing just as the
+		// target that was down from the start comes up. Once the client has
+		// seen the victim refuse a call and two detection rounds have passed,
+		// "only picks live targets" / "n distinct [live] targets" must hold
+		// for the new set.
+		const tickD = 100 * time.Millisecond
+		victim := addrs[rng.Intn(n)]
+		for a := range base {
+			base[a] = time.Millisecond
+		}
+		profile = 0
+		T := f.now()
+		f.mu.Lock()
+		f.down[victim] = append(f.down[victim], downIv{T, 1000 * time.Hour})
+		f.down["zz-dead"] = []downIv{{0, T}}
+		f.mu.Unlock()
+		firstFail := time.Duration(-1)
+		late := 0
+		var lateSeq []string
+		for i := 0; i < 12*n+40; i++ {
+			if i == 2*n {
+				time.Sleep(3*tickD + 20*time.Millisecond)
+			}
+			before := len(f.snapshot())
+			var arg uint64 = uint64(1000000 + i)
+			err := c.Call("m", &arg, nil)
+			for _, a := range f.snapshot()[before:] {
+				if a.token != arg {
+					continue
+				}
+				if a.addr == victim {
+					if firstFail < 0 {
+						firstFail = a.at
+					} else if a.at > firstFail+2*tickD+5*time.Millisecond {
+						late++
+					}
+				}
+				if i >= 2*n {
+					lateSeq = append(lateSeq, a.addr)
+				}
+			}
+			_ = err
+		}
+		if late > 0 {
+			bad("C17/policy/dead-target-picked", fmt.Sprintf("policy %d: %d calls were still routed to %s later than two detection rounds after the client first saw it refuse a call (+%v), while %d other targets incl. the recovered one were live; routes after the swap settled: %v", policy, late, victim, firstFail, n, lateSeq[:min(len(lateSeq), 24)]))
+		} else if firstFail >= 0 {
+			used := false
+			for _, a := range lateSeq {
+				if a == "zz-dead" {
+					used = true
+				}
+			}
+			if !used {
+				bad("C17/policy/recovered-target-unused", fmt.Sprintf("policy %d: the target that came up at +%v was never picked in %d calls made three detection rounds later, although it is live (routes %v)", policy, T, len(lateSeq), lateSeq[:min(len(lateSeq), 24)]))
+			}
+		}
+		out.Stats["membership_swaps"]++
+	}
+	seq = seq[:mainCalls]
 	c.Close()
 	synctest.Wait()
 	switch policy {
